@@ -1080,7 +1080,7 @@ def gen_universe_ex(rng, size, features=None):
         body = {k: v for k, v in s.items() if k != "default"}
         try:
             s["default"] = gen_valid(rng, doc, body, depth=2)
-        except Unsat:
+        except (Unsat, RecursionError):      # unsatisfiable, or a merge of mutually referring allOf definitions: no default
             continue
     if "invalid_defaults" in F:
         for ptr, body, d in find_defaults(doc):
